@@ -47,6 +47,10 @@ func runC14(c *fw.Case) {
 		runC14Proc(c)
 		return
 	}
+	if c.ChanceAdded(1, 10, "c14.concurrent") {
+		c14ConcurrentGets(c)
+		return
+	}
 	mode := c.Draw(5, "c14.mode") // 0,1 chunk http; 2 index http; 3,4 casync protocol
 	switch mode {
 	case 0, 1:
@@ -572,4 +576,140 @@ func c14Protocol(c *fw.Case) {
 
 func TestC14(t *testing.T) {
 	fw.Main(t, &fw.Check{ID: "C14", Level: "exploration", Run: runC14})
+}
+
+// slowWriter is an http.ResponseWriter whose Write keeps the caller's slice for a while before taking the bytes, as a
+// connection to a slow client does; the while is a scheduling point.
+type slowWriter struct {
+	rt     *simrt.RT
+	header http.Header
+	status int
+	body   []byte
+}
+
+func (w *slowWriter) Header() http.Header { return w.header }
+func (w *slowWriter) WriteHeader(code int) {
+	if w.status == 0 {
+		w.status = code
+	}
+}
+func (w *slowWriter) Write(p []byte) (int, error) {
+	if w.status == 0 {
+		w.status = 200
+	}
+	// the first part goes out, the client stalls, the rest follows
+	h := len(p) / 2
+	w.body = append(w.body, p[:h]...)
+	w.rt.Yield("response-write")
+	w.body = append(w.body, p[h:]...)
+	return len(p), nil
+}
+
+// c14ConcurrentGets: several clients fetch different indexes and chunks from one index / chunk server at the same time;
+// every response is the object that was asked for.
+func c14ConcurrentGets(c *fw.Case) {
+	dir := filepath.Join(c.Dir(), "srv")
+	os.MkdirAll(dir, 0755)
+	r := c.Rand("conc.seed")
+	nobj := c.Range(2, 4, "conc.objects")
+	var idxBytes [][]byte
+	var chunkData [][]byte
+	var chunkIDs []desync.ChunkID
+	ls, _ := desync.NewLocalStore(dir, desync.StoreOptions{})
+	for i := 0; i < nobj; i++ {
+		idx := desync.Index{Index: desync.FormatIndex{FeatureFlags: desync.CaFormatExcludeNoDump | desync.CaFormatSHA512256, ChunkSizeMin: 64, ChunkSizeAvg: 256, ChunkSizeMax: 1024}}
+		var pos uint64
+		n := 1 + r.IntN(20)
+		if c.Bool("conc.samelen") {
+			n = 8 // equal lengths: a mixed-up response still parses
+		}
+		for j := 0; j < n; j++ {
+			var id desync.ChunkID
+			for k := range id {
+				id[k] = byte(r.IntN(256))
+			}
+			sz := uint64(1 + r.IntN(1024))
+			idx.Chunks = append(idx.Chunks, desync.IndexChunk{ID: id, Start: pos, Size: sz})
+			pos += sz
+		}
+		var buf bytes.Buffer
+		idx.WriteTo(&buf)
+		idxBytes = append(idxBytes, buf.Bytes())
+		os.WriteFile(filepath.Join(dir, fmt.Sprintf("i%d.caibx", i)), buf.Bytes(), 0644)
+		b := make([]byte, 100+r.IntN(1500))
+		for k := range b {
+			b[k] = byte(r.IntN(256))
+		}
+		ch := desync.NewChunk(b)
+		ls.StoreChunk(ch)
+		chunkData = append(chunkData, b)
+		chunkIDs = append(chunkIDs, ch.ID())
+	}
+	is, _ := desync.NewLocalIndexStore(dir)
+	ih := desync.NewHTTPIndexHandler(is, false, "")
+	unc := c.Bool("conc.uncompressed")
+	var conv desync.Converters
+	if !unc {
+		conv = desync.Converters{desync.Compressor{}}
+	}
+	ch := desync.NewHTTPHandler(ls, false, false, conv, "")
+	nclients := c.Range(2, 4, "conc.clients")
+	type req struct {
+		index bool
+		k     int
+	}
+	plans := make([][]req, nclients)
+	for i := range plans {
+		for j, n := 0, c.Range(1, 4, "conc.requests"); j < n; j++ {
+			plans[i] = append(plans[i], req{index: c.Chance(2, 3, "conc.index"), k: c.Draw(nobj, "conc.k")})
+		}
+	}
+	c.Class(fmt.Sprintf("concurrent GETs objects=%d clients=%d unc=%v", nobj, nclients, unc))
+	c.NonTrivial()
+	sr := c.Sim(func(rt *simrt.RT) {
+		rt.MaxSteps = 20000
+		for i := range plans {
+			pl := plans[i]
+			rt.Go(fmt.Sprintf("client%d", i), func() {
+				for _, q := range pl {
+					if c.Violated() {
+						return
+					}
+					w := &slowWriter{rt: rt, header: http.Header{}}
+					if q.index {
+						ih.ServeHTTP(w, httptest.NewRequest("GET", fmt.Sprintf("/i%d.caibx", q.k), nil))
+						c.SubEval(1)
+						if w.status != 200 || !bytes.Equal(w.body, idxBytes[q.k]) {
+							got, perr := desync.IndexFromReader(bytes.NewReader(w.body))
+							c.Violate("data-altered", "index-GET/concurrent", "GET i%d.caibx while other requests are being answered: status %d, %d bytes that are not the stored index (%d bytes; parses: %v, %d chunks)", q.k, w.status, len(w.body), len(idxBytes[q.k]), perr == nil, len(got.Chunks))
+							return
+						}
+						continue
+					}
+					s := chunkIDs[q.k].String()
+					path := "/" + s[:4] + "/" + s
+					if !unc {
+						path += ".cacnk"
+					}
+					ch.ServeHTTP(w, httptest.NewRequest("GET", path, nil))
+					c.SubEval(1)
+					b := w.body
+					var derr error
+					if !unc {
+						b, derr = desync.Decompress(nil, w.body)
+					}
+					if w.status != 200 || derr != nil || !bytes.Equal(b, chunkData[q.k]) {
+						c.Violate("data-altered", "chunk-GET/concurrent", "GET of chunk %d while other requests are being answered: status %d, body is not the chunk (%v)", q.k, w.status, derr)
+						return
+					}
+				}
+			})
+		}
+	})
+	if c.StdSimViolations(sr, "HTTP handlers/concurrent", true) {
+		return
+	}
+	if !c.Violated() {
+		c.Outcome("ok")
+	}
 }
